@@ -173,8 +173,9 @@ func verifC19TrieOp(e *verifC19TrieEnv, it *InstanceNameTrie, member []bool, val
 }
 
 // Verif_C19_T1_Trie: for every subset of the six names (inserted in ascending or
-// descending order) followed by one (thorough: two) further operations - Set of any name
-// with a new value, or Remove of any member - the four lookup functions agree
+// descending order) followed by one further operation - Set of any name with a
+// new value, or Remove of any member - (thorough: both orders for every subset,
+// then a second Remove of any member) the four lookup functions agree
 // with the independently computed longest component-wise prefix for each of
 // the query names; Remove reports emptiness correctly and removes exactly the
 // one name; a removed name can be registered again.
